@@ -63,6 +63,12 @@ ASSUMPTIONS = [
 MASK_BITS = [1 << i for i in range(20)]
 
 
+# prime field sizes: small, and magnitudes at the 64-bit block boundaries of
+# the Big Integer encoding (sign bit of the leading block set / clear)
+PRIMES = [7, 104729, 2 ** 61 - 1, 2 ** 63 - 25, 2 ** 63 - 1, 2 ** 64 - 59,
+          2 ** 127 - 1, 2 ** 128 - 159]
+
+
 def gen_masks(r):
     x = r.random()
     if x < 0.12:
@@ -149,7 +155,7 @@ def gen_spec(r, otype):
                       'method': r.choice([1, 2, 3, 4]),
                       'kft': r.choice([1, 2, 7])})
             if s['method'] == 3 or r.random() < 0.3:
-                s['prime'] = r.choice([7, 104729, 2 ** 61 - 1, 2 ** 127 - 1])
+                s['prime'] = r.choice(PRIMES)
     elif otype == 'PublicKey':
         pv = gen.rsa_values(r.randrange(6))
         s.update({'alg': 4, 'len': 1024, 'value': pv[0],
